@@ -44,6 +44,7 @@ UADS = {
     "VfGamma": [{"alias": ["vfg", "gamma-x"], "backend_name": "NOPE_GAS", "verif_p2": "text value"},
                 {"alias": ["vfg"], "verif_p3": 7.125}],
     "VfDelta": [{}, {"verif_p3": 0.5}],
+    "VfAlphaX": [{"molar_mass": 61.5}, {}],     # a name that has another key ('VfAlpha') as prefix
 }
 REG_GASES = ["N2", "CO2", "CH4"]   # resolved through the in-memory registry
 UMATS = {
@@ -51,6 +52,7 @@ UMATS = {
     "VfM2": [{"density": 2.125, "molar_mass": 812.5}, {"density": 3.25, "molar_mass": 812.5, "batch": "b-7"}],
     "VfM3": [{"batch": "K12", "verif_m1": 0.25}, {"batch": "K13"}],
     "VfM4": [{}],
+    "VfM10": [{"density": 0.75}, {}],          # a name that has another key ('VfM1') as prefix
 }
 PTYPES = {
     "adsorbate": ["verif_p1", "verif_p2", "verif_p3", "verif_px", "molar_mass", "alias"],
